@@ -108,7 +108,7 @@ func (p *parser) node(depth int) (*node, error) {
 	if depth > 64 {
 		return nil, fmt.Errorf("too deep")
 	}
-	c, err := p.one("LOGF")
+	c, err := p.one("LOGFW")
 	if err != nil {
 		return nil, err
 	}
@@ -219,6 +219,8 @@ func (n *node) String() string {
 		return fmt.Sprintf("L%d%c%c", n.id, n.typ, n.scope)
 	case 'O':
 		return fmt.Sprintf("O%c", n.scope)
+	case 'W':
+		return "W"
 	case 'G':
 		var ks []string
 		for _, k := range n.kids {
@@ -258,6 +260,9 @@ func (n *node) toJSON() interface{} {
 	scopeJSON(m, n.scope)
 	var name string
 	switch n.kind {
+	case 'W':
+		name = "verif.Gate"
+		m["gate"] = n.id
 	case 'L':
 		switch n.typ {
 		case 's':
@@ -333,6 +338,49 @@ func (n *node) toJSON() interface{} {
 		}
 	}
 	return map[string]interface{}{name: m}
+}
+
+// ----------------------------------------------------------------- gate
+
+// gate is a probe modifier (registered through the public parse.Register as
+// "verif.Gate"): not a verifier; when armed, the first message through it
+// parks inside ModifyRequest/ModifyResponse until released.
+type gate struct {
+	armed   int32
+	arrived chan struct{}
+	release chan struct{}
+}
+
+var (
+	gates      sync.Map // id -> *gate
+	nextGateID int64
+)
+
+func (g *gate) pass() {
+	if atomic.CompareAndSwapInt32(&g.armed, 1, 0) {
+		g.arrived <- struct{}{}
+		<-g.release
+	}
+}
+
+func (g *gate) ModifyRequest(*http.Request) error   { g.pass(); return nil }
+func (g *gate) ModifyResponse(*http.Response) error { g.pass(); return nil }
+
+func init() {
+	parse.Register("verif.Gate", func(b []byte) (*parse.Result, error) {
+		var msg struct {
+			Gate  int                  `json:"gate"`
+			Scope []parse.ModifierType `json:"scope"`
+		}
+		if err := json.Unmarshal(b, &msg); err != nil {
+			return nil, err
+		}
+		g, ok := gates.Load(msg.Gate)
+		if !ok {
+			return nil, fmt.Errorf("unknown gate %d", msg.Gate)
+		}
+		return parse.NewResult(g.(*gate), msg.Scope)
+	})
 }
 
 // ------------------------------------------------------------- messages
@@ -634,6 +682,14 @@ type system struct {
 	resv    verify.ResponseVerifier
 	mu      sync.Mutex
 	texts   map[string]string // error text -> "v:mid" / "v:-"
+	gate    *gate
+	gateID  int
+}
+
+func (s *system) close() {
+	if s != nil && s.gate != nil {
+		gates.Delete(s.gateID)
+	}
 }
 
 func newSystem(tree *node, direct bool) (*system, string) {
@@ -654,6 +710,13 @@ func newSystem(tree *node, direct bool) (*system, string) {
 			}
 		case 'F':
 			s.filters = append(s.filters, n)
+		case 'W':
+			if s.gate == nil {
+				s.gate = &gate{arrived: make(chan struct{}, 1), release: make(chan struct{})}
+				s.gateID = int(atomic.AddInt64(&nextGateID, 1))
+				gates.Store(s.gateID, s.gate)
+			}
+			n.id = s.gateID
 		}
 	})
 	body, err := json.Marshal(tree.toJSON())
@@ -902,6 +965,7 @@ func runSeq(in []string) (out []string) {
 		return []string{"BADCASE"}
 	}
 	s, st := newSystem(tree, in[0] == "DIR")
+	defer s.close()
 	out = append(out, "CFG="+st)
 	if s == nil {
 		return out
@@ -959,7 +1023,8 @@ func runConc(in []string) (out []string) {
 	if err != nil {
 		return []string{"BADCASE"}
 	}
-	s, st := newSystem(tree, false)
+	s, st := newSystem(tree, in[0] == "CONCB")
+	defer s.close()
 	out = append(out, "CFG="+st)
 	if s == nil {
 		return out
@@ -968,7 +1033,8 @@ func runConc(in []string) (out []string) {
 	var threads [][]built
 	var ctl []string
 	var ctlIdx []int
-	snap := false // KS: the control thread notes, before each query, how far every traffic thread has got
+	var ctlStart []int // index into ctl where each control goroutine's ops begin
+	snap := false      // KS: the control thread notes, before each query, how far every traffic thread has got
 	sect := byte(0)
 	for i := 2; i < len(in); i++ {
 		t := in[i]
@@ -978,9 +1044,11 @@ func runConc(in []string) (out []string) {
 		case t == "T" && (sect == 'P' || sect == 'T'):
 			sect = 'T'
 			threads = append(threads, nil)
-		case (t == "K" || t == "KS") && sect == 'T':
+		case (t == "K" || t == "KS") && (sect == 'T' || sect == 'K'):
+			// every K starts one more control goroutine
 			sect = 'K'
-			snap = t == "KS"
+			snap = snap || t == "KS"
+			ctlStart = append(ctlStart, len(ctl))
 		case sect == 'K':
 			if t != "Q" && t != "R" && t != "Qq" && t != "Qs" && t != "Rq" && t != "Rs" {
 				return []string{"BADCASE"}
@@ -1041,37 +1109,48 @@ func runConc(in []string) (out []string) {
 	}
 	ctlOut := make([]string, len(ctl))
 	snapOut := make([]string, len(ctl))
-	wg.Add(1)
-	go func() {
-		defer wg.Done()
-		defer func() {
-			if r := recover(); r != nil {
-				ctlOut = append(ctlOut, "PANIC")
-			}
-		}()
-		<-start
-		for i, op := range ctl {
-			if op[0] == 'Q' {
-				if snap {
-					d := make([]int, len(done))
-					for ti := range done {
-						d[ti] = int(atomic.LoadInt32(&done[ti]))
-					}
-					snapOut[i] = fmt.Sprintf("S%d=%s", ctlIdx[i], fmtList(d))
-				}
-				ts, bad := s.query(op)
-				if bad != "" {
-					ctlOut[i] = fmt.Sprintf("A%d=!%s", ctlIdx[i], bad)
-				} else {
-					ctlOut[i] = fmt.Sprintf("A%d=%s", ctlIdx[i], s.canon(ts))
-				}
-			} else {
-				ctlOut[i] = fmt.Sprintf("Z%d=%s", ctlIdx[i], s.reset(op))
-			}
+	var panicked int32
+	for ci := range ctlStart {
+		lo, hi := ctlStart[ci], len(ctl)
+		if ci+1 < len(ctlStart) {
+			hi = ctlStart[ci+1]
 		}
-	}()
+		wg.Add(1)
+		go func(lo, hi int) {
+			defer wg.Done()
+			defer func() {
+				if r := recover(); r != nil {
+					atomic.StoreInt32(&panicked, 1)
+				}
+			}()
+			<-start
+			for i := lo; i < hi; i++ {
+				op := ctl[i]
+				if op[0] == 'Q' {
+					if snap {
+						d := make([]int, len(done))
+						for ti := range done {
+							d[ti] = int(atomic.LoadInt32(&done[ti]))
+						}
+						snapOut[i] = fmt.Sprintf("S%d=%s", ctlIdx[i], fmtList(d))
+					}
+					ts, bad := s.query(op)
+					if bad != "" {
+						ctlOut[i] = fmt.Sprintf("A%d=!%s", ctlIdx[i], bad)
+					} else {
+						ctlOut[i] = fmt.Sprintf("A%d=%s", ctlIdx[i], s.canon(ts))
+					}
+				} else {
+					ctlOut[i] = fmt.Sprintf("Z%d=%s", ctlIdx[i], s.reset(op))
+				}
+			}
+		}(lo, hi)
+	}
 	close(start)
 	wg.Wait()
+	if atomic.LoadInt32(&panicked) == 1 {
+		out = append(out, "PANIC")
+	}
 	for _, e := range errs {
 		out = append(out, e...)
 	}
@@ -1099,6 +1178,142 @@ func runConc(in []string) (out []string) {
 	return out
 }
 
+// runGate: GATEM|GATEB <tree with a W node> <traffic>* <parked traffic> <Q|R|Qq|Qs|Rq|Rs>
+// The last message parks inside the gate (between the verifiers around W);
+// the operation is then started against it.  Correct locking makes the
+// operation wait for the message; the answers must be those of "message then
+// operation" or "operation then message".  No timing decides the verdict: the
+// grace period only gives a wrongly-unblocked operation time to run.
+func runGate(in []string) (out []string) {
+	defer func() {
+		if r := recover(); r != nil {
+			out = append(out, "PANIC")
+		}
+	}()
+	if len(in) < 4 {
+		return []string{"BADCASE"}
+	}
+	tree, err := parseTree(in[1])
+	if err != nil {
+		return []string{"BADCASE"}
+	}
+	op := in[len(in)-1]
+	switch op {
+	case "Q", "Qq", "Qs", "R", "Rq", "Rs":
+	default:
+		return []string{"BADCASE"}
+	}
+	var msgs []built
+	for i := 2; i < len(in)-1; i++ {
+		m, err := parseMessage(in[i], i)
+		if err != nil {
+			return []string{"BADCASE"}
+		}
+		req, res, err := m.build()
+		if err != nil {
+			return []string{"BADCASE"}
+		}
+		msgs = append(msgs, built{m, req, res})
+	}
+	if len(msgs) == 0 {
+		return []string{"BADCASE"}
+	}
+	s, st := newSystem(tree, in[0] == "GATEB")
+	defer s.close()
+	out = append(out, "CFG="+st)
+	if s == nil {
+		return out
+	}
+	if s.gate == nil {
+		return []string{"BADCASE"}
+	}
+	for _, b := range msgs {
+		out = append(out, s.bits(b.m, b.req, b.res))
+	}
+	for _, b := range msgs[:len(msgs)-1] {
+		if r := s.send(b.m, b.req, b.res); r != "ok" && r != "nil" {
+			out = append(out, fmt.Sprintf("E%d=%s", b.m.mid, r))
+		}
+	}
+	last := msgs[len(msgs)-1]
+	atomic.StoreInt32(&s.gate.armed, 1)
+	msgDone := make(chan string, 1)
+	go func() {
+		defer func() {
+			if r := recover(); r != nil {
+				msgDone <- "PANIC"
+			}
+		}()
+		msgDone <- s.send(last.m, last.req, last.res)
+	}()
+	parked := false
+	var early string
+	select {
+	case <-s.gate.arrived:
+		parked = true
+	case early = <-msgDone: // the message never reaches the gate (scoped out / other branch)
+	}
+	opIdx := len(in) - 1
+	opDone := make(chan string, 1)
+	go func() {
+		defer func() {
+			if r := recover(); r != nil {
+				opDone <- "PANIC"
+			}
+		}()
+		if op[0] == 'Q' {
+			ts, bad := s.query(op)
+			if bad != "" {
+				opDone <- fmt.Sprintf("A%d=!%s", opIdx, bad)
+			} else {
+				opDone <- fmt.Sprintf("A%d=%s", opIdx, s.canon(ts))
+			}
+		} else {
+			opDone <- fmt.Sprintf("Z%d=%s", opIdx, s.reset(op))
+		}
+	}()
+	var opOut string
+	ranEarly := false
+	if parked {
+		select {
+		case opOut = <-opDone:
+			ranEarly = true
+		case <-time.After(gateGrace):
+		}
+		close(s.gate.release)
+		early = <-msgDone
+	}
+	if opOut == "" {
+		opOut = <-opDone
+	}
+	if early != "ok" && early != "nil" {
+		out = append(out, fmt.Sprintf("E%d=%s", last.m.mid, early))
+	}
+	if opOut == "PANIC" {
+		return append(out, "PANIC")
+	}
+	out = append(out, opOut)
+	if parked {
+		out = append(out, "PARKED=1")
+	} else {
+		out = append(out, "PARKED=0")
+	}
+	if ranEarly {
+		out = append(out, "EARLY=1")
+	} else {
+		out = append(out, "EARLY=0")
+	}
+	ts, bad := s.query("Q")
+	if bad != "" {
+		out = append(out, "FQ=!"+bad)
+	} else {
+		out = append(out, "FQ="+s.canon(ts))
+	}
+	return out
+}
+
+const gateGrace = 25 * time.Millisecond
+
 func runCase(in []string) []string {
 	if len(in) == 0 {
 		return []string{"BADCASE"}
@@ -1106,8 +1321,10 @@ func runCase(in []string) []string {
 	switch in[0] {
 	case "SEQ", "DIR":
 		return runSeq(in)
-	case "CONC":
+	case "CONC", "CONCB":
 		return runConc(in)
+	case "GATEM", "GATEB":
+		return runGate(in)
 	}
 	return []string{"BADCASE"}
 }
@@ -1263,6 +1480,14 @@ func runChild(bin string, cases []hx.Case) (map[string][]string, error) {
 	return res, nil
 }
 
+func isConcurrent(kind string) bool {
+	switch kind {
+	case "CONC", "CONCB", "GATEM", "GATEB":
+		return true
+	}
+	return false
+}
+
 func main() {
 	mlog.SetLevel(mlog.Silent)
 	for i, a := range os.Args {
@@ -1284,7 +1509,7 @@ func main() {
 	// concurrent cases go to a (race-enabled when possible) child process
 	var conc []hx.Case
 	for _, c := range all {
-		if len(c.In) > 0 && c.In[0] == "CONC" {
+		if len(c.In) > 0 && isConcurrent(c.In[0]) {
 			conc = append(conc, c)
 		}
 	}
@@ -1306,7 +1531,7 @@ func main() {
 	}
 	for _, c := range all {
 		var out []string
-		if len(c.In) > 0 && c.In[0] == "CONC" {
+		if len(c.In) > 0 && isConcurrent(c.In[0]) {
 			out = concOut[c.Name]
 			if out == nil {
 				out = []string{"CHILDLOST"}
